@@ -88,10 +88,10 @@ Example read_points_fast_example :
   read_points_fast 3 [63; 2; 5; 6; 7; 1; 2; 3] [0;0;0] = Ok [5;1;1; 11;3;1; 18;6;1] /\
   read_points_fast 3 [63] [0;0;0] = Err OutOfBounds /\
   read_points_fast 300 [57; 255; 57; 255] (repeat 0 300) = Ok (flat_map (fun _ => [0;0;1]) (repeat 0 300)).
-Proof. repeat split; vm_compute; reflexivity. Qed.
+Proof. split; [|split]; vm_compute; reflexivity. Qed.
 Example points_iter_example : exists it, points_iter (Some 2) [63; 2; 5; 6; 7; 1; 2; 3] = Ok it /\
   piter_run 10 it = Ok ([5;1;1; 11;3;1; 18;6;1], true).
-Proof. eexists. split; vm_compute; reflexivity. Qed.
+Proof. eexists. split. { vm_compute. reflexivity. } vm_compute. reflexivity. Qed.
 (* packed point numbers: count 3, one run of 3 one-byte deltas 1,2,3 -> points 1,3,6; remainder 1 byte *)
 Example packed_points_example : ppn_split_off_front [3; 2; 1; 2; 3; 99] = Ok [99] /\
   ppn_run 10 (ppn_iter [3; 2; 1; 2; 3; 99]) = Ok ([1; 3; 6], true).
